@@ -545,14 +545,12 @@ def BHJM_magnet_trimesh(
     if in_out == "auto":
         prev_ind = 0
         # group similar meshes for inside-outside evaluation and adding B
-        for new_ind, _ in enumerate(BHJM):
+        for new_ind in range(1, len(BHJM) + 1):
             if (
-                new_ind == len(BHJM) - 1
+                new_ind == len(BHJM)
                 or mesh[new_ind].shape != mesh[prev_ind].shape
                 or not np.all(mesh[new_ind] == mesh[prev_ind])
             ):
-                if new_ind == len(BHJM) - 1:
-                    new_ind = len(BHJM)
                 mask_inside = mask_inside_trimesh(
                     observers[prev_ind:new_ind], mesh[prev_ind]
                 )
